@@ -3,6 +3,7 @@ import json, os, subprocess, sys, multiprocessing as mp, shutil, atexit, time
 from . import build
 
 SCRATCH = os.environ.get("VERIF_SCRATCH", "/dev/shm")
+os.makedirs(SCRATCH, exist_ok=True)
 NPROC = int(os.environ.get("VERIF_NPROC", str(min(16, os.cpu_count() or 4))))
 
 
@@ -104,7 +105,7 @@ class Pool:
         self.pool.close()
         self.pool.join()
         # pool workers remove their own scratch via atexit? multiprocessing skips atexit; sweep here
-        for d in os.listdir(SCRATCH):
+        for d in (os.listdir(SCRATCH) if os.path.isdir(SCRATCH) else []):
             if d.startswith("xcpsim."):
                 pid = d.split(".")[1]
                 if not os.path.exists("/proc/%s" % pid):
